@@ -6,17 +6,21 @@ import CaresLemmas.ChanWfNewQ
 namespace Cares.Chan
 
 /-- the result of a sub-call is the result of the procedure (tail call, or the state part of it) -/
-theorem Good.tail {d c c' s s1} {r : St × Ret} {ret : Ret} (hg : Good d c' s1 r)
+theorem Good.tail {d c c' s s1} {r : St × Ret} {ret : Ret} (hg : GoodO d c' s1 r)
     (hs : StepS (exFd c) (exId c) d s.sk s1.sk)
     (hf : exFd c' = none ∨ exFd c' = exFd c) (hi : exId c' = none ∨ exId c' = exId c)
-    (hp : Post s (r.1, ret) c) : Good d c s (r.1, ret) :=
-  ⟨hg.wf, hg.debt, hs.trans (hg.step.weaken hf hi (fun _ => Nat.le_refl _)), hp⟩
+    (hp : Post s (r.1, ret) c) : GoodO d c s (r.1, ret) := by
+  rcases hg with hoof | hg
+  · exact Or.inl hoof
+  · exact Or.inr ⟨hg.wf, hg.debt, hs.trans (hg.step.weaken hf hi (fun _ => Nat.le_refl _)), hp⟩
 
-theorem Good.tail' {d c c' s s1} {r : St × Ret} (hg : Good d c' s1 r)
+theorem Good.tail' {d c c' s s1} {r : St × Ret} (hg : GoodO d c' s1 r)
     (hs : StepS (exFd c) (exId c) d s.sk s1.sk)
     (hf : exFd c' = none ∨ exFd c' = exFd c) (hi : exId c' = none ∨ exId c' = exId c)
-    (hp : Post s r c) : Good d c s r :=
-  ⟨hg.wf, hg.debt, hs.trans (hg.step.weaken hf hi (fun _ => Nat.le_refl _)), hp⟩
+    (hp : Good d c' s1 r → Post s r c) : GoodO d c s r := by
+  rcases hg with hoof | hg
+  · exact Or.inl hoof
+  · exact Or.inr ⟨hg.wf, hg.debt, hs.trans (hg.step.weaken hf hi (fun _ => Nat.le_refl _)), hp hg⟩
 
 theorem exId_sendNolock (a b c e o r) : exId (.sendNolock a b c e o r) = ownerId o := by cases o <;> rfl
 
@@ -32,7 +36,7 @@ theorem sk_addQuery_st (s : St) (nk qid : Nat) (q : Query) (hnk : nk = s.nextKey
 
 theorem good_sendNolock {go} (hgo : GoOk go) {d reqSrv nocache noretry spec owner react s}
     (hpre : Pre d s (.sendNolock reqSrv nocache noretry spec owner react)) :
-    Good d (.sendNolock reqSrv nocache noretry spec owner react) s
+    GoodO d (.sendNolock reqSrv nocache noretry spec owner react) s
       (bodySendNolock go reqSrv nocache noretry spec owner react s) := by
   obtain ⟨hw, hof, hdf⟩ := hpre
   unfold bodySendNolock
@@ -43,10 +47,10 @@ theorem good_sendNolock {go} (hgo : GoOk go) {d reqSrv nocache noretry spec owne
   have hw0 : Wf s0 := Wf.of_sk_eq hsk0 hw
   -- the early-failure paths hand the callback over in a state with the same skeleton
   have early : ∀ (s1 : St) (st : Status) (rec : Option Reply) (ret : Ret), s1.sk = s.sk →
-      Good d (.sendNolock reqSrv nocache noretry spec owner react) s
+      GoodO d (.sendNolock reqSrv nocache noretry spec owner react) s
         ((go (.callback owner react st 0 rec) s1).1, ret) := by
     intro s1 st rec ret h1
-    have hg := hgo d (.callback owner react st 0 rec) s1
+    have hg := hgo.2 d (.callback owner react st 0 rec) s1
       ⟨Wf.of_sk_eq h1 hw, by rw [h1]; exact hof, by rw [h1]; exact hdf⟩
     refine Good.tail hg (by rw [h1]; exact StepS.refl _ _ _ _) (Or.inl rfl) (Or.inr ?_) trivial
     rw [exId_callback, exId_sendNolock]
@@ -86,20 +90,20 @@ theorem good_sendNolock {go} (hgo : GoOk go) {d reqSrv nocache noretry spec owne
             edns := spec.edns, usingTcp := s1.cfg.usevc, noRetries := noretry } hnk2 rfl rfl rfl
         rw [hsk2] at hsk3
         simp only at hsk3
-        have hg := hgo d (.sendQuery reqSrv s.sk.nextKey) _
+        have hg := hgo.2 d (.sendQuery reqSrv s.sk.nextKey) _
           ⟨by unfold Wf; rw [hsk3]; exact wf_addQuery hw hof, by rw [hsk3]; exact idx_addQuery,
            by rw [hsk3]; exact debt_addQuery hw hof hdf⟩
         exact Good.tail' hg (by rw [hsk3, exId_sendNolock]; exact step_addQuery hw) (Or.inl rfl) (Or.inl rfl)
-          trivial
+          (fun _ => trivial)
 
 theorem Good.of_sk_eq {d c s s1} {ret : Ret} (hw : Wf s) (hd : DebtOk none d s.sk) (h : s1.sk = s.sk)
-    (hp : Post s (s1, ret) c) : Good d c s (s1, ret) :=
-  ⟨Wf.of_sk_eq h hw, by rw [h]; exact hd, by rw [h]; exact StepS.refl _ _ _ _, hp⟩
+    (hp : Post s (s1, ret) c) : GoodO d c s (s1, ret) :=
+  Or.inr ⟨Wf.of_sk_eq h hw, by rw [h]; exact hd, by rw [h]; exact StepS.refl _ _ _ _, hp⟩
 
 /-! ### `probe` -/
 
 theorem good_probe {go} (hgo : GoOk go) {d srvId key s} (hpre : Pre d s (.probe srvId key)) :
-    Good d (.probe srvId key) s (bodyProbe go srvId key s) := by
+    GoodO d (.probe srvId key) s (bodyProbe go srvId key s) := by
   obtain ⟨hw, hd⟩ := hpre
   unfold bodyProbe
   split
@@ -123,7 +127,7 @@ theorem good_probe {go} (hgo : GoOk go) {d srvId key s} (hpre : Pre d s (.probe 
               have hsk1 : (s0.modServer pv.id fun v => { v with probePending := true }).sk = s.sk := by
                 rw [sk_modServer_same]; exact hsk0; intro; rfl
               generalize (s0.modServer pv.id fun v => { v with probePending := true }) = s1 at hsk1
-              refine Good.tail (hgo d _ _ ?_) (by rw [hsk1]; exact StepS.refl _ _ _ _) (Or.inl rfl) (Or.inl rfl) trivial
+              refine Good.tail (hgo.2 d _ _ ?_) (by rw [hsk1]; exact StepS.refl _ _ _ _) (Or.inl rfl) (Or.inl rfl) trivial
               exact ⟨Wf.of_sk_eq hsk1 hw, trivial, by rw [hsk1]; exact hd⟩
 
 /-! ### `flush` -/
@@ -133,11 +137,11 @@ theorem good_probe {go} (hgo : GoOk go) {d srvId key s} (hpre : Pre d s (.probe 
   rw [sk_modConn_same]; intro; rfl
 
 theorem Good.flush_same {d fd s s1} {ret : Ret} (hw : Wf s) (hd : DebtOk none d s.sk) (h : s1.sk = s.sk) :
-    Good d (.flush fd) s (s1, ret) :=
-  ⟨Wf.of_sk_eq h hw, by rw [h]; exact hd, by rw [h]; exact StepS.refl _ _ _ _, h⟩
+    GoodO d (.flush fd) s (s1, ret) :=
+  Or.inr ⟨Wf.of_sk_eq h hw, by rw [h]; exact hd, by rw [h]; exact StepS.refl _ _ _ _, h⟩
 
 theorem good_flush {go} (hgo : GoOk go) {d fd s} (hpre : Pre d s (.flush fd)) :
-    Good d (.flush fd) s (bodyFlush go fd s) := by
+    GoodO d (.flush fd) s (bodyFlush go fd s) := by
   obtain ⟨hw, hl, hd⟩ := hpre
   unfold bodyFlush
   split
@@ -169,9 +173,10 @@ theorem good_flush {go} (hgo : GoOk go) {d fd s} (hpre : Pre d s (.flush fd)) :
               (((s0.recordTx fd false f).notify fd true false).modConn fd fun c => { c with out := rest }) (.flush fd) :=
             fun f rest => ⟨Wf.of_sk_eq (hsk1 f rest) hw, by unfold Sk.liveConn; rw [hsk1]; exact hl,
               by rw [hsk1]; exact hd⟩
-          refine Good.tail' (hgo d _ _ (hpre1 _ _)) (by rw [hsk1]; exact StepS.refl _ _ _ _) (Or.inl rfl)
+          refine Good.tail' (hgo.2 d _ _ (hpre1 _ _)) (by rw [hsk1]; exact StepS.refl _ _ _ _) (Or.inl rfl)
             (Or.inl rfl) ?_
-          exact (hgo d (.flush fd) _ (hpre1 _ _)).post.trans (hsk1 _ _)
+          intro hg
+          exact hg.post.trans (hsk1 _ _)
       · split
         · exact Good.flush_same hw hd (by simp)
         · have hsk0 := sk_fault s "sendto"
